@@ -3,6 +3,7 @@ C04 — completeness of the update procedure for well-formed responses.
   `req_ready`         a round's request = the spans of groups of adjacent extents of chunks that are missing and have stored bytes
                       (from C10's `missing_spec`; `specRanges_groups`, `sliceIncl_group`: the server's slice for a range is the
                       concatenation of the stored bytes of its group);
+  `partHdr_noEarly`, `closing_noHeader`   the text of the reference server's multipart body holds no stray CRLFCRLF;
   `Honest`            what the regex oracle must do on the reference server's responses (a HYPOTHESIS: glibc's regex is a parameter);
   `session_single/_multi`, `round_complete`   one transfer / one round with such a response: carried out, every body fragment
                       accepted under the transport's fragmentation, every requested chunk valid, no other mark changes
@@ -11,7 +12,7 @@ C04 — completeness of the update procedure for well-formed responses.
   `afterHeader_complete`, `update_complete`   the procedure ends without error with the target = B, or a collision is exhibited.
   `marks_of_scan`     after scan, copy from the old file and reset there is one mark per chunk, each 0 or 1 (`Marks`), for any
                       target and old file; `update_converges` is the headline with that discharged.
-Hypotheses that remain: `Honest` (regex semantics + two facts about the response text) and that the scan marked the chunks
+Hypotheses that remain: `Honest` (regex semantics only: the two facts about the response text are proved, `partHdr_noEarly`, `closing_noHeader`) and that the scan marked the chunks
 without stored bytes valid (in a file the writer produces only the empty dictionary entry is such a chunk).
 -/
 import ZckModel.Props.C04Req
@@ -594,13 +595,119 @@ theorem clip_ok (total : Nat) : ∀ (items : List (Nat × Nat)), (∀ p ∈ item
     rw [clip_ok total rest (fun q hq => h q (List.mem_cons_of_mem _ hq))]
     rfl
 
+/-! ### the text of the reference server's multipart body holds no stray CRLFCRLF -/
+
+theorem dec_no13 (n : Nat) : ∀ b ∈ dec n, b ≠ 13 := by
+  intro b hb
+  unfold dec at hb
+  obtain ⟨c, hc, rfl⟩ := List.mem_map.mp hb
+  have hd := Nat.isDigit_of_mem_toDigits (by decide) (by decide) hc
+  simp only [Char.isDigit, Bool.and_eq_true, decide_eq_true_eq] at hd
+  have h48 : 48 ≤ c.toNat := by
+    have := hd.1
+    simp only [ge_iff_le, UInt32.le_iff_toNat_le] at this
+    exact this
+  have h57 : c.toNat ≤ 57 := by
+    have := hd.2
+    simp only [UInt32.le_iff_toNat_le] at this
+    exact this
+  intro h
+  have h1 : c.toNat.toUInt8.toNat = 13 := by rw [h]; rfl
+  simp only [Nat.toUInt8, UInt8.toNat_ofNat'] at h1
+  omega
+
+/-- in `CR LF X T` with no CR in the non-empty `X`, two CRs two apart can only lie in `T` -/
+theorem cr_shift (X T : Bytes) (hX : ∀ b ∈ X, b ≠ 13) (hne : X ≠ []) (i : Nat)
+    (h1 : (13 :: 10 :: (X ++ T))[i]? = some 13) (h2 : (13 :: 10 :: (X ++ T))[i + 2]? = some 13) :
+    2 + X.length ≤ i ∧ T[i - (2 + X.length)]? = some 13 ∧ T[i - (2 + X.length) + 2]? = some 13 := by
+  match i with
+  | 0 =>
+    exfalso
+    simp only [List.getElem?_cons_succ] at h2
+    obtain ⟨x, xs, rfl⟩ := List.exists_cons_of_ne_nil hne
+    simp only [List.cons_append, List.getElem?_cons_zero, Option.some.injEq] at h2
+    exact hX x (by simp) h2
+  | 1 => simp at h1
+  | k + 2 =>
+    simp only [List.getElem?_cons_succ] at h1 h2
+    by_cases hk : k < X.length
+    · exfalso
+      rw [List.getElem?_append_left hk] at h1
+      exact hX 13 (List.mem_of_getElem? h1) rfl
+    · have hk' : X.length ≤ k := by omega
+      rw [List.getElem?_append_right hk'] at h1
+      rw [List.getElem?_append_right (by omega)] at h2
+      refine ⟨by omega, ?_, ?_⟩
+      · have : k + 2 - (2 + X.length) = k - X.length := by omega
+        rw [this]; exact h1
+      · have : k + 2 - (2 + X.length) + 2 = k + 2 - X.length := by omega
+        rw [this]; exact h2
+
+/-- a window equal to CRLFCRLF has CRs at its first and third place -/
+theorem window_crs (L : Bytes) (j : Nat) (h : (L.drop j).take 4 = C05.crlf2) : L[j]? = some 13 ∧ L[j + 2]? = some 13 := by
+  have h0 : ((L.drop j).take 4)[0]? = some 13 := by rw [h]; rfl
+  have h2 : ((L.drop j).take 4)[2]? = some 13 := by rw [h]; rfl
+  simp only [List.getElem?_take, List.getElem?_drop] at h0 h2
+  simp only [Nat.lt_irrefl, Nat.zero_lt_succ, ↓reduceIte, Nat.add_zero] at h0
+  exact ⟨h0, by simpa using h2⟩
+
+theorem no13_append {a b : Bytes} (ha : ∀ x ∈ a, x ≠ 13) (hb : ∀ x ∈ b, x ≠ 13) : ∀ x ∈ a ++ b, x ≠ 13 := by
+  intro x hx
+  rcases List.mem_append.mp hx with h | h
+  · exact ha x h
+  · exact hb x h
+
+theorem boundary_no13 (n : Nat) : ∀ b ∈ boundary n, b ≠ 13 :=
+  no13_append (by decide) (dec_no13 n)
+
+/-- **no CRLFCRLF inside a part header of the reference server** -/
+theorem partHdr_noEarly (n total : Nat) (r : Nat × Nat) : NoEarly (partHdr n total r) := by
+  intro j hj hw
+  obtain ⟨c1, c2⟩ := window_crs _ j hw
+  -- the shape: CR LF X1 CR LF X2 CR LF X3 CRLFCRLF
+  let X1 : Bytes := [45, 45] ++ boundary n
+  let X2 : Bytes := bCT
+  let X3 : Bytes := bCR ++ dec r.1 ++ [45] ++ dec r.2 ++ [47] ++ dec total
+  have hshape : partHdr n total r ++ C05.crlf2 = 13 :: 10 :: (X1 ++ (13 :: 10 :: (X2 ++ (13 :: 10 :: (X3 ++ C05.crlf2))))) := by
+    simp [partHdr, bDelim, X1, X2, X3, List.append_assoc]
+  have hlen : (partHdr n total r).length = 2 + X1.length + (2 + X2.length) + (2 + X3.length) := by
+    have := congrArg List.length hshape
+    simp only [List.length_append, List.length_cons, C05.crlf2, List.length_nil] at this
+    omega
+  have n1 : ∀ b ∈ X1, b ≠ 13 := no13_append (by decide) (boundary_no13 n)
+  have n2 : ∀ b ∈ X2, b ≠ 13 := by decide
+  have n3 : ∀ b ∈ X3, b ≠ 13 :=
+    no13_append (no13_append (no13_append (no13_append (no13_append (by decide) (dec_no13 _)) (by decide)) (dec_no13 _)) (by decide)) (dec_no13 _)
+  rw [hshape] at c1 c2
+  obtain ⟨a1, a2, a3⟩ := cr_shift X1 _ n1 (by simp [X1]) j c1 c2
+  obtain ⟨b1, b2, b3⟩ := cr_shift X2 _ n2 (by decide) _ a2 a3
+  obtain ⟨d1, d2, d3⟩ := cr_shift X3 _ n3 (by simp [X3, bCR]) _ b2 b3
+  omega
+
+/-- **no part header in the closing delimiter of the reference server** -/
+theorem closing_noHeader (n : Nat) : NoHeader (closing n) := by
+  intro j r hr
+  obtain ⟨hat, hjr⟩ := scanFrom_inr_at (closing n) j r hr
+  obtain ⟨c1, c2⟩ := window_crs _ _ hat
+  let X : Bytes := [45, 45] ++ boundary n ++ [45, 45]
+  have hshape : closing n = 13 :: 10 :: (X ++ [13, 10]) := by
+    simp [closing, bDelim, X, List.append_assoc]
+  have nX : ∀ b ∈ X, b ≠ 13 := no13_append (no13_append (by decide) (boundary_no13 n)) (by decide)
+  rw [hshape] at c1 c2
+  obtain ⟨a1, a2, a3⟩ := cr_shift X _ nX (by simp [X]) _ c1 c2
+  generalize r - j - (2 + X.length) = i at a2 a3
+  match i with
+  | 0 => simp at a3
+  | 1 => simp at a2
+  | k + 2 => simp at a2
+
 /-! ### what the regex oracle must do on the reference server's responses -/
 
 /-- `regcomp`/`regexec` read the reference server's responses as intended: no boundary in the lines of a single-range
 response; in a multipart response the boundary of the Content-Type line is found (and nothing in the other lines), the two
-patterns built from it compile, in every part header the part pattern finds the two numbers of the range (and the header's
-first CRLFCRLF is its end), and the closing delimiter holds no part header.  These are facts about glibc's regex functions and
-about the text the server sends; the model takes the former as a parameter. -/
+patterns built from it compile, and in every part header the part pattern finds the two numbers of the range.  These are facts
+about glibc's regex functions, which the model takes as a parameter.  (That a part header's first CRLFCRLF is its end and that
+the closing delimiter holds no part header are facts about the text, proved: `partHdr_noEarly`, `closing_noHeader`.) -/
 structure Honest (rx : Rx) (n total : Nat) (items : List (Nat × Nat)) : Prop where
   comp   : rx.comp hdrPattern = true
   single : ∀ r, items = [r] → ∀ l ∈ singleLines total r, rx.hdr (cstr l) = none
@@ -609,8 +716,7 @@ structure Honest (rx : Rx) (n total : Nat) (items : List (Nat × Nat)) : Prop wh
              ∃ so eo, rx.hdr (cstr l1) = some (so, eo) ∧ so ≤ eo ∧ eo ≤ (cstr l1).length ∧ boundaryOf (cstr l1) so eo = boundary n
   compP  : rx.comp (partPattern (boundary n)) = true
   compE  : rx.comp (endPattern (boundary n)) = true
-  parts  : ∀ r ∈ items, C05.HdrOk rx (partPattern (boundary n)) (partHdr n total r) (r.2 - r.1 + 1)
-  closing : NoHeader (closing n)
+  parts  : ∀ r ∈ items, C05.RxFinds rx (partPattern (boundary n)) (partHdr n total r) (r.2 - r.1 + 1)
 
 theorem accepted_lengths (fs : List Bytes) : accepted (fs.map List.length) fs = true := by
   unfold accepted
@@ -880,7 +986,7 @@ theorem round_complete (n : Nat) (H : HashFn) (rx : Rx) (B : Bytes) (th : Hdr) (
           omega
         have hh := hon'.parts (spanOf g) hr
         rw [hrxe]
-        refine ⟨hh.1, ?_, ?_, ?_⟩
+        refine ⟨partHdr_noEarly n B.length (spanOf g), ?_, ?_, ?_⟩
         · intro h
           have := congrArg List.length h
           simp only at this
@@ -890,11 +996,11 @@ theorem round_complete (n : Nat) (H : HashFn) (rx : Rx) (B : Bytes) (th : Hdr) (
           rw [hlen]; omega
         · show ∃ a1 b1 a2 b2, _ ∧ _ ∧ _ ∧ _ ∧ _ ∧ _ = (sliceIncl B (spanOf g)).length
           rw [hlen]
-          exact hh.2
+          exact hh
       exact session_multi e hd (storedOf th B) file valid _ _ _ _ (boundary n) so eo ps (mkGroups (g1 :: g2 :: rest) 0) (closing n) _
         (by rw [hrxe]; exact hon'.comp) (by rw [hrxe]; exact hnone) (by rw [hrxe]; exact hm) ⟨hso1, hso2⟩ hbnd
         (by rw [hrxe]; exact hon'.compP) (by rw [hrxe]; exact hon'.compE) hpay
-        (mkGroups_ne _ 0 (fun g hg' => (hg g hg').1)) (by simp [mkGroups]) hridx hrunidx hent hndr hok hon'.closing hps.2
+        (mkGroups_ne _ 0 (fun g hg' => (hg g hg').1)) (by simp [mkGroups]) hridx hrunidx hent hndr hok (closing_noHeader n) hps.2
         (by rw [hps.1, hpsb])
   obtain ⟨r, hr⟩ := round_of_session n H rx B th limit frag file valid (gs.map spanOf) hitemsne hclip (by rw [he]; exact hsess.1)
   rw [he] at hr
